@@ -49,6 +49,40 @@ func c04SetAmount(a *ast.Ast, all bool, skip int, take int, last int) {
 	}
 }
 
+// c04Amount sets the amount clause of the command. Under gosym the (all,skip,take,last) tuple is written
+// into the tree (s, t, n are symbolic). In the native replay the clause is spelled with the concrete numbers
+// and parsed by the real parser, and the whole command header is taken from that parse: the replay then
+// does not depend on how this implementation represents an amount.
+func c04Amount(a *ast.Ast, form int, all bool, skip int, take int, last int) {
+	if vSymbolic() {
+		c04SetAmount(a, all, skip, take, last)
+		return
+	}
+	clause := ""
+	switch form {
+	case 0:
+		clause = "top " + vItoa(take)
+	case 1:
+		clause = "skip " + vItoa(skip)
+	case 2:
+		clause = "skip " + vItoa(skip) + " take " + vItoa(take)
+	case 3:
+		clause = "last " + vItoa(last)
+	}
+	switch c := a.Commands()[0].(type) {
+	case *ast.AstFind:
+		p := vParse("find " + clause + " 'a'").Commands()[0].(*ast.AstFind)
+		body := c.Body
+		*c = *p
+		c.Body = body
+	case *ast.AstReplace:
+		p := vParse("replace " + clause + " 'a' with 'b'").Commands()[0].(*ast.AstReplace)
+		body, res := c.Body, c.Result
+		*c = *p
+		c.Body, c.Result = body, res
+	}
+}
+
 func c04Run(a *ast.Ast, text string) engine.Matches {
 	return engine.Run(vGen(a), text)
 }
@@ -86,21 +120,21 @@ func VerifC04(body int, T int, replace int, symLits int, twin int) {
 		return y
 	}
 	// top n / take n
-	c04SetAmount(a, false, 0, n, 0)
+	c04Amount(a, 0, false, 0, n, 0)
 	got := c04Run(a, text)
 	if !c04SameList(got, A[:min(n, len(A))]) {
 		vNote("got", c04Nums(got))
 		vFail("take/top n is not A[0:n]")
 	}
 	// skip s
-	c04SetAmount(a, true, s, 0, 0)
+	c04Amount(a, 1, true, s, 0, 0)
 	got = c04Run(a, text)
 	if !c04SameList(got, A[min(s, len(A)):]) {
 		vNote("got", c04Nums(got))
 		vFail("skip s is not A[s:]")
 	}
 	// skip s take t
-	c04SetAmount(a, false, s, t, 0)
+	c04Amount(a, 2, false, s, t, 0)
 	got = c04Run(a, text)
 	lo := min(s, len(A))
 	hi := min(s+t, len(A))
@@ -110,7 +144,7 @@ func VerifC04(body int, T int, replace int, symLits int, twin int) {
 	}
 	// last n (n >= 1)
 	if n >= 1 {
-		c04SetAmount(a, true, 0, 0, n)
+		c04Amount(a, 3, true, 0, 0, n)
 		got = c04Run(a, text)
 		from := len(A) - n
 		if from < 0 {
@@ -155,6 +189,11 @@ func VerifC04Amount(kind int) {
 		src, wAll, wLast = "replace last "+num1+" 'a' with 'b'", true, n1
 	}
 	vNote("source", src)
+	if !vSymbolic() {
+		// native replay: what the clause selects, observed through Compile and Run on 130 matches
+		c04AmountObserved(src, kind >= 6, wAll, wSkip, wTake, wLast)
+		return
+	}
 	a := vParse(src)
 	var gAll bool
 	var gSkip, gTake, gLast int
@@ -166,5 +205,53 @@ func VerifC04Amount(kind int) {
 	}
 	if gAll != wAll || gSkip != wSkip || gTake != wTake || gLast != wLast {
 		vFail("amount clause parsed into the wrong (all,skip,take,last) tuple")
+	}
+}
+
+// c04AmountObserved: the clause, compiled and run through the public API on a text with 130 matches,
+// selects the window the property describes (skip s -> A[s:], skip s take t -> A[s:s+t], take/top n ->
+// A[0:n], last n -> the final n), every match unchanged including its number.
+func c04AmountObserved(src string, replace bool, all bool, skip int, take int, last int) {
+	text := ""
+	for i := 0; i < 130; i++ {
+		text += "a"
+	}
+	allSrc := "find all 'a'"
+	if replace {
+		allSrc = "replace all 'a' with 'b'"
+	}
+	va, err := Compile(allSrc)
+	if err != nil {
+		vFail("harness: " + allSrc + " does not compile")
+	}
+	A := []engine.Match(va.Run(text))
+	v, err := Compile(src)
+	if err != nil {
+		vFail("amount clause parsed into the wrong (all,skip,take,last) tuple: the clause is rejected")
+	}
+	got := v.Run(text)
+	lo, hi := 0, len(A)
+	switch {
+	case last > 0:
+		lo = len(A) - last
+	case all:
+		lo = skip
+	default:
+		lo, hi = skip, skip+take
+	}
+	if lo < 0 {
+		lo = 0
+	}
+	if lo > len(A) {
+		lo = len(A)
+	}
+	if hi > len(A) {
+		hi = len(A)
+	}
+	if hi < lo {
+		hi = lo
+	}
+	if !c04SameList(got, A[lo:hi]) {
+		vFail("amount clause parsed into the wrong (all,skip,take,last) tuple: " + src + " selects " + c04Nums(got))
 	}
 }
